@@ -15,7 +15,7 @@ SUBS = ['water', 'NaCl', 'DMSO']
 
 # template -> needs (names that must have been created by an earlier step), creates (name)
 TEMPLATES = {
-    'A>B': {}, 'A>Pr': {}, 'Pc>B': {}, 'P11>Pr2': {}, 'Pr1>Pr2': {},
+    'A>B': {}, 'A>Pr': {}, 'Pc>B': {}, 'P11>Pr2': {}, 'Pr1>Pr2': {}, 'A>Psub': {}, 'Psub>B': {},
     'rmB': {}, 'rmPr': {}, 'rmP': {},
     'fillB': {}, 'fillP': {}, 'fillS': {},
     'dilA': {},
@@ -88,10 +88,29 @@ class Cast:
 
 
 USES = {
-    'A>B': 'AB', 'A>Pr': 'AP', 'Pc>B': 'PB', 'P11>Pr2': 'P', 'Pr1>Pr2': 'P', 'rmB': 'B', 'rmPr': 'P', 'rmP': 'P',
+    'A>Psub': 'AP', 'Psub>B': 'PB', 'A>B': 'AB', 'A>Pr': 'AP', 'Pc>B': 'PB', 'P11>Pr2': 'P', 'Pr1>Pr2': 'P', 'rmB': 'B', 'rmPr': 'P', 'rmP': 'P',
     'fillB': 'B', 'fillP': 'P', 'fillS': 'P', 'dilA': 'A', 'mkC': '', 'solW': '', 'solA': 'A', 'fromA': 'A',
     'solC': '', 'A>C': 'A', 'C>B': 'B',
 }
+
+
+def _objects(t):
+    s = set(USES[t])
+    for k in ('creates', 'needs'):
+        if k in TEMPLATES[t]:
+            s.add(TEMPLATES[t][k])
+    return s
+
+
+def interacting(prog):
+    """True if some step of the program touches an object that an earlier step touched"""
+    seen = set()
+    for t in prog:
+        o = _objects(t)
+        if o & seen:
+            return True
+        seen |= o
+    return False
 
 
 def declared_for(prog):
@@ -100,6 +119,13 @@ def declared_for(prog):
     for t in prog:
         used |= set(USES[t])
     return sorted(used)
+
+
+def sub(P, which):
+    """slices of slices (0-based relative indices): 'in' = well B1 via P[:, :][1:2, 0:1]; 'out' = well A2 via P[1:2, 1:2][0:1, 1:2]"""
+    if which == 'in':
+        return P[:, :][1:2, 0:1]
+    return P[1:2, 1:2][0:1, 1:2]
 
 
 def sel(P, which):
@@ -116,6 +142,10 @@ def add_step(cast: Cast, rec, t, v, placeholders):
         rec.transfer(A, P[1, :], f"{v['q']} uL")
     elif t == 'Pc>B':
         rec.transfer(P[:, 1], B, f"{v['q']} uL")
+    elif t == 'A>Psub':
+        rec.transfer(A, sub(P, 'in'), f"{v['q']} uL")
+    elif t == 'Psub>B':
+        rec.transfer(sub(P, 'out'), B, f"{v['q']} uL")
     elif t == 'P11>Pr2':
         rec.transfer(P[1, 1], P[2, :], f"{v['q']} uL")
     elif t == 'Pr1>Pr2':
@@ -168,6 +198,12 @@ def eager_step(cast: Cast, cur: dict, t, v):
         return ['A', 'P'], discarded
     if t == 'Pc>B':
         cur['P'], cur['B'] = C.transfer(cur['P'][:, 1], cur['B'], f"{v['q']} uL")
+        return ['P', 'B'], discarded
+    if t == 'A>Psub':
+        cur['A'], cur['P'] = Plate.transfer(cur['A'], sub(cur['P'], 'in'), f"{v['q']} uL")
+        return ['A', 'P'], discarded
+    if t == 'Psub>B':
+        cur['P'], cur['B'] = C.transfer(sub(cur['P'], 'out'), cur['B'], f"{v['q']} uL")
         return ['P', 'B'], discarded
     if t == 'P11>Pr2':
         p1, p2 = Plate.transfer(cur['P'][1, 1], cur['P'][2, :], f"{v['q']} uL")
